@@ -338,6 +338,34 @@ fn explore(which: &str, seed: u64, max_steps: usize, stick: u64, spur: u64, weak
     format!("{} steps={} viol={}{} :: {}", verdict, steps, if viol.is_empty() { "-".to_string() } else { viol.join("|").replace(' ', "_") }, lost, g.trace.join(" ; "))
 }
 
+/// `futexops <flags.0 as futex_wait_fast passed it>`: calls the real `rusl::futex::futex_wait` / `futex_wake`
+/// with a scripted kernel (nothing is executed) and reports the operation word (2nd syscall argument) of each:
+/// bit 7 (FUTEX_PRIVATE_FLAG) is the futex key kind, which must agree between waiters and wakers.
+fn futex_ops(flags_word: u32) -> String {
+    use ::rusl::platform::FutexFlags;
+    let word = core::sync::atomic::AtomicU32::new(0);
+    let flags = if flags_word == 0 { FutexFlags::empty() } else { FutexFlags::PRIVATE };
+    if flags.bits().into_u32() != flags_word {
+        return format!("futexops unknown-flags {} (rusl PRIVATE = {})", flags_word, FutexFlags::PRIVATE.bits().into_u32());
+    }
+    let r = std::panic::catch_unwind(|| {
+        sc::shim::reset();
+        sc::shim::script(vec![sc::shim::neg_errno(11)], 0);
+        sc::shim::start_log();
+        let _ = ::rusl::futex::futex_wait(&word, 1, flags, None);
+        let _ = ::rusl::futex::futex_wake(&word, 1);
+        let log = sc::shim::take_log();
+        sc::shim::reset();
+        log
+    });
+    match r {
+        Ok(log) if log.len() == 2 && log.iter().all(|c| sc::shim::name(c.nr) == "futex") =>
+            format!("futexops wait={} wake={} waitval={} wakenum={}", log[0].args[1], log[1].args[1], log[0].args[2], log[1].args[2]),
+        Ok(log) => format!("futexops unexpected-syscalls {:?}", log.iter().map(|c| sc::shim::name(c.nr)).collect::<Vec<_>>()),
+        Err(_) => { sc::shim::reset(); "futexops panicked".to_string() }
+    }
+}
+
 fn main() {
     std::panic::set_hook(Box::new(|_| {}));
     let stdin = std::io::stdin();
@@ -345,6 +373,11 @@ fn main() {
     let mut out = std::io::BufWriter::new(stdout.lock());
     for line in stdin.lock().lines() {
         let line = line.unwrap();
+        if let Some(rest) = line.strip_prefix("futexops") {
+            writeln!(out, "{}", futex_ops(rest.trim().parse().unwrap_or(u32::MAX))).unwrap();
+            out.flush().unwrap();
+            continue;
+        }
         // <mutex|rw> <seed> <max_steps> <stick%> <spur%> <weakfail%> <slowmask> : prog0 | prog1 | ...
         let (head, progs) = match line.split_once(':') { Some(x) => x, None => { writeln!(out, "bad-op").unwrap(); continue; } };
         let h: Vec<&str> = head.split_whitespace().collect();
